@@ -10,9 +10,9 @@ META = {
                    "_data_cnt and every queue/event/lock/thread operation is a separate schedulable step. z3 decides for "
                    "all interleavings and all input lengths n<=N that the consumer's output equals [f(0..n-1)] (unordered: a "
                    "chunk-wise permutation) and that no payload-carrying item is left in the results queue.",
-    "bounds": {"quick": {"workers": "1", "chunk_size": "1", "items": "<=1", "queue_bounds": "work 1.0 (default) / results None and 1",
-                         "api": "imap, imap_unordered"},
-               "thorough": {"workers": "1,2", "chunk_size": "1,2", "items": "<=1 for all schedules; <=2 for all schedules with at most 2 pre-emptions (context bound)",
+    "bounds": {"quick": {"workers": "1", "chunk_size": "1,2", "items": "<=1 for all schedules; 2 items in one chunk for all schedules with at most 2 pre-emptions",
+                         "queue_bounds": "work 1.0 (default) / results None and 1", "api": "imap, imap_unordered"},
+               "thorough": {"workers": "1,2", "chunk_size": "1,2", "items": "<=1 for all schedules; <=2 for all schedules with at most 2-4 pre-emptions, <=3 with at most 2 (context bound)",
                             "queue_bounds": "work {1.0, None}, results {None, 1}", "api": "imap, imap_unordered"}},
     "outside_bounds": ["more items/workers", "FactoryFunctorPool (worker replacement) - see C03", "generators that are not "
                        "fully consumed", "spawn/forkserver pickling", "join_timeout", "exceptions raised by the functor"],
@@ -31,6 +31,8 @@ def configs(tier):
         out.append({"kind": "pool", "workers": 1, "cs": 1, "nmax": 1, "api": "imap"})
         out.append({"kind": "pool", "workers": 1, "cs": 1, "nmax": 1, "api": "imap_unordered"})
         out.append({"kind": "pool", "workers": 1, "cs": 1, "nmax": 1, "api": "imap", "rq": 1})
+        # two items in one chunk, all schedules with at most 2 pre-emptions (context bound, stated in the evidence row)
+        out.append({"kind": "pool", "workers": 1, "cs": 2, "nmax": 2, "api": "imap", "context_bound": 2, "Ks": (56, 68)})
     else:
         # n <= 1 in every shape of configuration (decided for ALL schedules)
         out.append({"kind": "pool", "workers": 1, "cs": 1, "nmax": 1, "api": "imap", "cross_check_por": True})
@@ -44,6 +46,10 @@ def configs(tier):
         out.append({"kind": "pool", "workers": 1, "cs": 1, "nmax": 2, "api": "imap", "context_bound": 2, "Ks": (72, 86, 100)})
         out.append({"kind": "pool", "workers": 1, "cs": 2, "nmax": 2, "api": "imap", "context_bound": 2, "Ks": (56, 68, 80)})
         out.append({"kind": "pool", "workers": 1, "cs": 1, "nmax": 2, "api": "imap", "rq": 1, "context_bound": 2, "Ks": (72, 86, 100)})
+        out.append({"kind": "pool", "workers": 1, "cs": 1, "nmax": 2, "api": "imap_unordered", "context_bound": 3, "Ks": (72, 86)})
+        out.append({"kind": "pool", "workers": 1, "cs": 1, "nmax": 2, "api": "imap", "context_bound": 4, "Ks": (72, 86)})
+        out.append({"kind": "pool", "workers": 2, "cs": 1, "nmax": 2, "api": "imap", "context_bound": 2, "Ks": (84, 100)})
+        out.append({"kind": "pool", "workers": 1, "cs": 1, "nmax": 3, "api": "imap", "context_bound": 2, "Ks": (96, 112)})
     return out
 
 
